@@ -161,6 +161,10 @@ where
     pub fn set_mp_nexthop(&mut self, nexthop: NextHop)
         -> Result<(), ComposeError>
     {
+        // There is no wire representation for this placeholder.
+        if let NextHop::Unimplemented(_) = nexthop {
+            return Err(ComposeError::IllegalCombination);
+        }
         if let Some(ref mut a) = self.announcements.as_mut() {
             a.set_nexthop(nexthop)?;
         } else {
